@@ -1,8 +1,8 @@
 PROPERTY = "C04"
 ENTRY = {
         "text": "Clients.tla/ClientsCore.tla (abstract registry written from the statement: ownership, clash rejection, precedence "
-                "ClientID > exact IP > longest prefix > DHCP-lease MAC, own-vs-global settings) is explored by TLC over all histories of three "
-                "finite universes with 5 invariants and 1 action property; every labelled edge TLC prints is walked through a real client.Storage "
+                "ClientID > exact IP > longest prefix > DHCP-lease MAC, own-vs-global settings) is explored by TLC over all histories of four "
+                "finite universes (incl. IPv6-zoned addresses; Add/Update/Remove/LeaseChange and LoadConfig = start-up from a configuration file) with 5 invariants and 1 action property; every labelled edge TLC prints is walked through a real client.Storage "
                 "behind a real filtering.DNSFilter (edge-covering tours), comparing Find for every identifier/address, FindByName, RangeByName and the "
                 "effective filtering settings of every (ClientID, address) pair after every step; ClientSettings.tla enumerates every "
                 "(global value x own value x opt-out switch) combination of the five settings (6144 vectors, clients built as package home builds them) "
